@@ -264,8 +264,7 @@ end translate
 /-! ## Merging -/
 
 /-- **a merge is the sum of the embeddings**, for any number of fields of any shapes and offsets — also wholly
-negative extents, where `boundary`'s `rmax = 0` start only enlarges the box with zeros. (`mergeL fs = some p` excludes only
-the corner in which the bounding box is the single origin pixel, where NumPy raises.) -/
+negative extents, where `boundary`'s `rmax = 0` start only enlarges the box with zeros. (`_merge` of array fields always answers: `merge_spec`.) -/
 theorem merge_emb {K : Type} [AddZeroClass K] (fs : List (Fld K)) (hne : fs ≠ [])
     (hpos : ∀ f ∈ fs, 0 < f.arr.s0 ∧ 0 < f.arr.s1) (p : Fld K) (h : mergeL fs = some p) (r c : Int) :
     p.emb r c = sumList fs (fun f => f.emb r c) :=
@@ -278,8 +277,23 @@ example : (∀ f ∈ [Ex.N1, Ex.N2], 0 < f.arr.s0 ∧ 0 < f.arr.s1) ∧
     (mergeL [Ex.N1, Ex.N2]).map (fun p => (p.extent, p.emb (-5) (-5), p.emb (-8) (-3), p.emb 0 0)) =
       some (⟨-8, 0, -6, 0⟩, Ex.N1.emb (-5) (-5) + Ex.N2.emb (-5) (-5), Ex.N1.emb (-8) (-3) + Ex.N2.emb (-8) (-3), 0) := by
   decide
-/-- the excluded corner is real: a lone one-element field at the origin cannot be merged (NumPy raises there) -/
-example : (mergeL [(⟨⟨1, 1, fun _ _ => (5 : Int)⟩, 0, 0⟩ : Fld Int)]).isNone = true := by decide
+/-- **`_merge` of array fields is total and is the sum**: for every non-empty collection of positive-shape fields there is a
+merged field, it occupies the `boundary` box and embeds as the sum of its members — including (1, 1) arrays on the origin
+pixel (the corner where, before the /repo fix of `_merge_shape`, NumPy raised) -/
+theorem merge_spec {K : Type} [AddZeroClass K] (fs : List (Fld K)) (hne : fs ≠ [])
+    (hpos : ∀ f ∈ fs, 0 < f.arr.s0 ∧ 0 < f.arr.s1) :
+    ∃ p, mergeL fs = some p ∧ p.extent = boundaryL (fs.map Fld.extent) ∧
+      ∀ r c, p.emb r c = sumList fs (fun f => f.emb r c) := by
+  have hs := mergeL_isSome fs
+  cases h : mergeL fs with
+  | none => rw [h] at hs; cases hs
+  | some p => exact ⟨p, rfl, mergeL_extent fs hne hpos p h, fun r c => mergeL_emb fs hne hpos p h r c⟩
+/-- the former corner: (1, 1) arrays on the origin pixel merge to a (1, 1) array holding their sum (witness of the fixed
+defect: `reduce([Field([[2.]]), Field([[3j]])])` used to raise ValueError) -/
+example : (mergeL [(⟨⟨1, 1, fun _ _ => (5 : Int)⟩, 0, 0⟩ : Fld Int)]).map (fun p => (p.arr.s0, p.arr.s1, p.extent, p.emb 0 0)) =
+      some (1, 1, ⟨0, 0, 0, 0⟩, 5) ∧
+    (mergeL [(⟨⟨1, 1, fun _ _ => (2 : Int)⟩, 0, 0⟩ : Fld Int), ⟨⟨1, 1, fun _ _ => 3⟩, 0, 0⟩]).map
+      (fun p => (p.arr.s0, p.arr.s1, p.extent, p.emb 0 0)) = some (1, 1, ⟨0, 0, 0, 0⟩, 5) := by decide
 
 /-- the per-field slice of `_merge_slices` (generated `Gen.mergeSlice`, general branch) is the closed form the hand model
 `mergeL` writes in its guard (`e.rmin − b.rmin ≤ i < e.rmax − b.rmin + 1`, same for columns); and for a member extent
@@ -459,36 +473,32 @@ theorem reduce_total (fs : List (Fld K)) (hpos : ∀ f ∈ fs, 0 < f.arr.s0 ∧ 
   rw [sumList_eq_sum, sumList_eq_sum, hemb r c]
   exact (disjoint_total (fun f => f.emb r c) fs.length _).trans (single_total _ fs)
 
-/-- **totality of `reduce` from the inputs alone**: for positive shapes, if at most one input field occupies exactly the
-origin pixel, no merge can hit the single-origin-pixel corner and every element of `reduce fs` is a field -/
-theorem reduce_defined (fs : List (Fld K)) (hpos : ∀ f ∈ fs, 0 < f.arr.s0 ∧ 0 < f.arr.s1)
-    (h1 : (fs.filter fun f => decide (f.extent = ⟨0, 0, 0, 0⟩)).length ≤ 1) :
-    ∃ out : List (Fld K), reduce fs = out.map some :=
-  exists_eq_map_some _ (reduce_isSome_of_origin_le_one fs hpos h1)
+/-- **totality of `reduce`**: every element of `reduce fs` is a field, for every collection of array fields (since the
+/repo fix of `_merge_shape` no merge can raise) -/
+theorem reduce_defined (fs : List (Fld K)) : ∃ out : List (Fld K), reduce fs = out.map some :=
+  exists_eq_map_some _ (reduce_isSome fs)
 
-/-- **reduce, unconditionally, for collections with at most one field on the origin pixel** (in particular every
-collection of multi-element arrays, `reduce_arrays`): the result is a list of fields, pairwise sharing no pixel, whose
-embeddings sum to the sum of the inputs at every pixel of the plane — no hypothesis on the output -/
-theorem reduce_spec (fs : List (Fld K)) (hpos : ∀ f ∈ fs, 0 < f.arr.s0 ∧ 0 < f.arr.s1)
-    (h1 : (fs.filter fun f => decide (f.extent = ⟨0, 0, 0, 0⟩)).length ≤ 1) :
+/-- **reduce, unconditionally**: for every collection of positive-shape array fields the result is a list of fields,
+pairwise sharing no pixel, whose embeddings sum to the sum of the inputs at every pixel of the plane — no hypothesis on
+the output, none on where the fields lie -/
+theorem reduce_spec (fs : List (Fld K)) (hpos : ∀ f ∈ fs, 0 < f.arr.s0 ∧ 0 < f.arr.s1) :
     ∃ out : List (Fld K), reduce fs = out.map some ∧
       out.Pairwise (fun a b => ∀ r c, ¬(a.extent.inb r c = true ∧ b.extent.inb r c = true)) ∧
       ∀ r c, sumList out (fun f => f.emb r c) = sumList fs (fun f => f.emb r c) := by
-  obtain ⟨out, hout⟩ := reduce_defined fs hpos h1
+  obtain ⟨out, hout⟩ := reduce_defined fs
   exact ⟨out, hout, reduce_pairwise_disjoint fs hpos out hout, fun r c => reduce_total fs hpos out hout r c⟩
 
-/-- the class every wavefront built from array planes is in: **all fields have more than one element** -/
+/-- the class every wavefront built from array planes is in (all fields have more than one element); kept for its users —
+since the fix it is `reduce_spec`, which needs no such hypothesis -/
 theorem reduce_arrays (fs : List (Fld K)) (hpos : ∀ f ∈ fs, 0 < f.arr.s0 ∧ 0 < f.arr.s1)
-    (hmulti : ∀ f ∈ fs, f.size1 = false) :
+    (_hmulti : ∀ f ∈ fs, f.size1 = false) :
     ∃ out : List (Fld K), reduce fs = out.map some ∧
       out.Pairwise (fun a b => ∀ r c, ¬(a.extent.inb r c = true ∧ b.extent.inb r c = true)) ∧
-      ∀ r c, sumList out (fun f => f.emb r c) = sumList fs (fun f => f.emb r c) := by
-  apply reduce_spec fs hpos
-  have : (fs.filter fun f => decide (f.extent = ⟨0, 0, 0, 0⟩)) = [] := by
-    rw [List.filter_eq_nil_iff]
-    intro f hf
-    simpa using extent_ne_origin_of_not_size1 f (hpos f hf) (hmulti f hf)
-  rw [this]; exact Nat.zero_le _
+      ∀ r c, sumList out (fun f => f.emb r c) = sumList fs (fun f => f.emb r c) :=
+  reduce_spec fs hpos
+/-- the former corner inside `reduce`: two (1, 1) arrays on the origin pixel and a bystander -/
+example : (reduce [(⟨⟨1, 1, fun _ _ => (2 : Int)⟩, 0, 0⟩ : Fld Int), Ex.C, ⟨⟨1, 1, fun _ _ => 3⟩, 0, 0⟩]).map
+      (fun o => o.map fun p => (p.extent, p.emb 0 0)) = [some (⟨0, 0, 0, 0⟩, 5), some (Ex.C.extent, 0)] := by decide
 /-- non-vacuity: the example collection consists of multi-element fields -/
 example : ∀ f ∈ [Ex.A, Ex.C, Ex.B], (0 < f.arr.s0 ∧ 0 < f.arr.s1) ∧ f.size1 = false := by decide
 
@@ -528,40 +538,51 @@ end reduce_out
 /-! ## 0-d data (what `Wavefront.__init__` creates): merge / reduce / public `merge` and `overlap`, 0-d aware
 
 `ZFld` = field + flag "data is a 0-d array" (`Model/FieldZ.lean`). A 0-d field is a 1×1 array everywhere except in
-`_merge` on a collection whose bounding box is the single origin pixel: there 0-d members are all added, and a (1, 1)
-array member makes NumPy raise. (Before /repo fix 5cccd0c only the first member was kept — `reduce([Field(2), Field(3)])`
-returned 2; corpus case `tools/corpus/C06/kf_merge_0d_origin.json`.) -/
+`_merge` on a collection whose bounding box is the single origin pixel: there the result is 0-d iff every member is, and
+a (1, 1) array otherwise. (Two fixed defects: before /repo fix 5cccd0c only the first member was kept —
+`reduce([Field(2), Field(3)])` returned 2; before the `_merge_shape` fix a (1, 1) array member made NumPy raise. Corpus
+cases `tools/corpus/C06/kf_merge_0d_origin*.json`, `kf_merge_1x1_origin*.json`.) -/
 section zerod
 variable {K : Type}
 
-/-- **a 0-d aware merge is the sum of the embeddings and occupies the `boundary` box**, for every collection on which
-`_merge` answers — including 0-d fields at the origin -/
+/-- **a 0-d aware merge is the sum of the embeddings and occupies the `boundary` box**, for every non-empty collection
+(`_merge` always answers: `mergeZ_total`) — including 0-d fields and (1, 1) arrays at the origin -/
 theorem mergeZ_emb [AddZeroClass K] (zs : List (ZFld K)) (hne : zs ≠ [])
     (hpos : ∀ z ∈ zs, 0 < z.fld.arr.s0 ∧ 0 < z.fld.arr.s1) (p : ZFld K) (h : mergeZ zs = some p) :
     p.fld.extent = boundaryL (zs.map fun z => z.fld.extent) ∧
     ∀ r c, p.fld.emb r c = sumList zs (fun z => z.fld.emb r c) :=
   mergeZ_spec zs hne hpos p h
 
-/-- `_merge` answers exactly unless the box is the single origin pixel and some member is not 0-d -/
-theorem mergeZ_defined_iff [Add K] [Zero K] (zs : List (ZFld K)) :
-    (mergeZ zs).isSome = true ↔
-      (boundaryL (zs.map fun z => z.fld.extent) ≠ ⟨0, 0, 0, 0⟩ ∨ zs.all (fun z => z.zd) = true) :=
-  mergeZ_isSome_iff zs
+/-- **`_merge` never raises** (0-d members, (1, 1) arrays, any mix, anywhere) -/
+theorem mergeZ_total [Add K] [Zero K] (zs : List (ZFld K)) : ∃ p, mergeZ zs = some p := by
+  have hs := mergeZ_isSome zs
+  cases h : mergeZ zs with
+  | none => rw [h] at hs; cases hs
+  | some p => exact ⟨p, rfl⟩
 
-/-- the 0-d aware model refines the plain-array one: wherever `mergeL` answers, `mergeZ` gives the same field -/
+/-- the merged data is 0-d exactly when the box is the single origin pixel and every member is 0-d -/
+theorem mergeZ_zero_d_iff [Add K] [Zero K] (zs : List (ZFld K)) (p : ZFld K) (h : mergeZ zs = some p) :
+    p.zd = true ↔ (boundaryL (zs.map fun z => z.fld.extent) = ⟨0, 0, 0, 0⟩ ∧ (zs.all fun z => z.zd) = true) :=
+  mergeZ_zd zs p h
+
+/-- the 0-d aware model refines the plain-array one: unless the collection is all-0-d on the origin pixel (where the
+result is 0-d), `mergeZ` gives the field `mergeL` gives -/
 theorem mergeZ_refines_merge [Add K] [Zero K] (zs : List (ZFld K)) (p : Fld K)
+    (hz : (zs.all fun z => z.zd) = false ∨ boundaryL (zs.map fun z => z.fld.extent) ≠ ⟨0, 0, 0, 0⟩)
     (h : mergeL (zs.map fun z => z.fld) = some p) : mergeZ zs = some { fld := p, zd := false } :=
-  mergeZ_of_mergeL zs p h
+  mergeZ_of_mergeL zs p hz h
 
-/-- the old defect's witness now adds up: two 0-d fields at the origin merge to their sum (and a (1, 1) member raises) -/
+/-- the witnesses of the two fixed defects now add up: two 0-d fields at the origin merge to their 0-d sum; a 0-d field and a
+(1, 1) array at the origin merge to a (1, 1) array holding the sum -/
 example : (mergeZ [(⟨⟨⟨1, 1, fun _ _ => (2 : Int)⟩, 0, 0⟩, true⟩ : ZFld Int), ⟨⟨⟨1, 1, fun _ _ => 3⟩, 0, 0⟩, true⟩]).map
       (fun p => (p.fld.extent, p.fld.emb 0 0, p.zd)) = some (⟨0, 0, 0, 0⟩, 5, true) ∧
-    (mergeZ [(⟨⟨⟨1, 1, fun _ _ => (2 : Int)⟩, 0, 0⟩, true⟩ : ZFld Int), ⟨⟨⟨1, 1, fun _ _ => 3⟩, 0, 0⟩, false⟩]).isNone = true := by
+    (mergeZ [(⟨⟨⟨1, 1, fun _ _ => (2 : Int)⟩, 0, 0⟩, true⟩ : ZFld Int), ⟨⟨⟨1, 1, fun _ _ => 3⟩, 0, 0⟩, false⟩]).map
+      (fun p => (p.fld.extent, p.fld.emb 0 0, p.zd)) = some (⟨0, 0, 0, 0⟩, 5, false) := by
   decide
 
 /-- **public `merge(a, b, enforce_overlap)`**, in terms of pixels and embeddings (positive shapes): an accepted merge is the
 sum of the two embeddings and — when overlap is enforced — the operands do share a pixel; it is refused when overlap is
-enforced and no pixel is shared. (The remaining refusal is `_merge`'s own corner, `mergeZ_defined_iff`.) -/
+enforced and no pixel is shared — and only then (`_merge` itself never refuses: `mergeZ_total`). -/
 theorem merge_public_emb [AddZeroClass K] (a b : ZFld K) (enforce : Bool)
     (ha : 0 < a.fld.arr.s0 ∧ 0 < a.fld.arr.s1) (hb : 0 < b.fld.arr.s0 ∧ 0 < b.fld.arr.s1) :
     (∀ p, mergePublic a b enforce = some p →
@@ -656,50 +677,34 @@ theorem reduceZ_total (zs : List (ZFld K)) (hpos : ∀ z ∈ zs, 0 < z.fld.arr.s
   rw [h1, reduceZ_groups_toG, disjoint_total, single_total, List.map_map]
   rfl
 
-/-- **collections of 0-d fields never raise**: every element of `reduceZ zs` is a field -/
-theorem reduceZ_all0d_defined (zs : List (ZFld K)) (hz : ∀ z ∈ zs, z.zd = true) : ∀ o ∈ reduceZ zs, o.isSome = true := by
-  intro o ho
-  rw [reduceZ_eq] at ho
-  obtain ⟨g, hg, rfl⟩ := List.mem_map.mp ho
-  apply GroupZ.out_isSome_of_all_zd
-  refine disjointZ_members zs.length (zs.map GroupZ.single) (fun z => z.zd = true) ?_ g hg
-  intro g' hg' z hz'
-  obtain ⟨z0, hz0, rfl⟩ := List.mem_map.mp hg'
-  simp only [GroupZ.single, List.mem_singleton] at hz'
-  subst hz'; exact hz z hz0
+/-- **the 0-d aware reduce never raises**: every element of `reduceZ zs` is a field -/
+theorem reduceZ_defined (zs : List (ZFld K)) : ∃ out : List (ZFld K), reduceZ zs = out.map some :=
+  exists_eq_map_some _ (reduceZ_isSome zs)
 
-/-- … hence **for every collection of 0-d fields (any offsets, any number at the origin) reduce preserves the total and
-yields non-overlapping fields, unconditionally** — the clause the old `_merge_slices` violated -/
-theorem reduceZ_all0d_total (zs : List (ZFld K)) (hpos : ∀ z ∈ zs, 0 < z.fld.arr.s0 ∧ 0 < z.fld.arr.s1)
-    (hz : ∀ z ∈ zs, z.zd = true) :
+/-- **0-d aware reduce, unconditionally**: for every collection of positive-shape fields — 0-d data, (1, 1) arrays and
+larger arrays in any mix, any number of them on the origin pixel — the result is a list of fields, pairwise
+non-overlapping, with the total preserved at every pixel (the clause the old `_merge_slices` and `_merge_shape` violated) -/
+theorem reduceZ_spec (zs : List (ZFld K)) (hpos : ∀ z ∈ zs, 0 < z.fld.arr.s0 ∧ 0 < z.fld.arr.s1) :
     ∃ out : List (ZFld K), reduceZ zs = out.map some ∧
       (∀ r c, sumList out (fun z => z.fld.emb r c) = sumList zs (fun z => z.fld.emb r c)) ∧
       (∀ i j (hij : i < j) (hj : j < out.length), intersect (out[i]'(by omega)).fld.extent out[j].fld.extent = false) := by
-  obtain ⟨out, hout⟩ := exists_eq_map_some (reduceZ zs) (reduceZ_all0d_defined zs hz)
+  obtain ⟨out, hout⟩ := reduceZ_defined zs
   exact ⟨out, hout, fun r c => reduceZ_total zs hpos out hout r c,
     fun i j hij hj => reduceZ_disjoint zs hpos out hout i j hij hj⟩
 
-/-- **0-d aware reduce, unconditionally, from the inputs alone**: positive shapes and either at most one input on the
-origin pixel or every input on the origin pixel 0-d (the only excluded inputs are those where a (1, 1) array meets
-another one-element field at the origin, where NumPy raises): a list of fields, pairwise non-overlapping, total preserved -/
-theorem reduceZ_spec (zs : List (ZFld K)) (hpos : ∀ z ∈ zs, 0 < z.fld.arr.s0 ∧ 0 < z.fld.arr.s1)
-    (h : ((zs.map fun z => z.fld).filter fun f => decide (f.extent = ⟨0, 0, 0, 0⟩)).length ≤ 1 ∨
-         ∀ z ∈ zs, z.fld.extent = ⟨0, 0, 0, 0⟩ → z.zd = true) :
-    ∃ out : List (ZFld K), reduceZ zs = out.map some ∧
-      (∀ r c, sumList out (fun z => z.fld.emb r c) = sumList zs (fun z => z.fld.emb r c)) ∧
-      (∀ i j (hij : i < j) (hj : j < out.length), intersect (out[i]'(by omega)).fld.extent out[j].fld.extent = false) := by
-  obtain ⟨out, hout⟩ := exists_eq_map_some (reduceZ zs) (reduceZ_isSome_of_inputs zs hpos h)
-  exact ⟨out, hout, fun r c => reduceZ_total zs hpos out hout r c,
-    fun i j hij hj => reduceZ_disjoint zs hpos out hout i j hij hj⟩
-
-/-- the 0-d aware reduce refines the plain-array one: wherever every element of `reduce` is a field, `reduceZ`
-returns the same fields -/
-theorem reduceZ_refines_reduce (zs : List (ZFld K)) (out : List (Fld K))
+/-- the 0-d aware reduce refines the plain-array one: for a collection without 0-d members `reduceZ` returns the fields
+`reduce` returns -/
+theorem reduceZ_refines_reduce (zs : List (ZFld K)) (hz : ∀ z ∈ zs, z.zd = false) (out : List (Fld K))
     (h : reduce (zs.map fun z => z.fld) = out.map some) :
     (reduceZ zs).map (fun o => o.map fun z => z.fld) = out.map some := by
   rw [reduce_eq, ← reduceZ_groups_toG, List.map_map] at h
   rw [reduceZ_eq, List.map_map]
-  exact map_out_of_out _ out h
+  refine map_out_of_out _ ?_ out h
+  refine disjointZ_members zs.length (zs.map GroupZ.single) (fun z => z.zd = false) ?_
+  intro g' hg' z hz'
+  obtain ⟨z0, hz0, rfl⟩ := List.mem_map.mp hg'
+  simp only [GroupZ.single, List.mem_singleton] at hz'
+  subst hz'; exact hz z hz0
 
 /-- non-vacuity: three 0-d fields, two of them at the origin (the old witness) and one elsewhere: two output fields, total kept -/
 example : (reduceZ [(⟨⟨⟨1, 1, fun _ _ => (2 : Int)⟩, 0, 0⟩, true⟩ : ZFld Int), ⟨⟨⟨1, 1, fun _ _ => 7⟩, 3, -1⟩, true⟩,
